@@ -46,6 +46,16 @@ def families(tier):
                             params=dict(first_b=first_b, par_a=par_a, par_b=par_b),
                             scn=dict(buses={'A': dict(parallel=par_a), 'B': dict(parallel=par_b)}, order=o, handlers=hs, main=main, actors=actors,
                                      forwards=[('A', 'B')] if fwd else [], settle=3.0)))
+    # parallel_handlers bus: two sibling handlers of one event EACH awaiting a child (on the other / the same bus)
+    for b1, b2, par_b, k in itertools.product('AB', 'AB', (False, True), (0, 1)):
+        hs = [dict(bus='A', pat='P', name='h1', prog=[('pause',)] * k + [('disp', b1, 'C', 'await')]),
+              dict(bus='A', pat='P', name='h2', prog=[('disp', b2, 'G', 'await')]),
+              dict(bus=b1, pat='C', name='hc', prog=[('pause',)]), dict(bus=b2, pat='G', name='hg', prog=[('pause',)])]
+        for o in (['A', 'B'], ['B', 'A']):
+            out.append(dict(prop='C06', family='c06.mutex.parallel_siblings', id=f'c06/sib-{b1}{b2}-pb{int(par_b)}-k{k}-o{"".join(o)}', cfg=cfg,
+                            params=dict(first_b='main', par_a=True, par_b=par_b),
+                            scn=dict(buses={'A': dict(parallel=True), 'B': dict(parallel=par_b)}, order=o, handlers=hs,
+                                     main=[('disp', 'B', 'X', 'await'), ('disp', 'A', 'P', 'ff')], actors=[], forwards=[], settle=3.0)))
     # three buses: a chain of first uses inside handlers
     for pshape, o in itertools.product(['ff', 'aw'], itertools.permutations('ABC')):
         if not deep and o not in (('A', 'B', 'C'), ('C', 'B', 'A')):
@@ -86,7 +96,28 @@ def oracle(spec, res):
                 if any(tr.awaiting(iv[5], s) is not None for iv in sib):
                     continue
             out.append(V('overlap', f'{b2}.{h2}({e2}) entered at seq {s} while {b1}.{h1}({e1}) was running and not awaiting',
-                         first_use=spec['params']['first_b'], parallel=bool(b1 in par or b2 in par), same_bus=b1 == b2))
+                         first_use=spec['params']['first_b'], parallel=bool(b1 in par or b2 in par), same_bus=b1 == b2,
+                         sibling_inline=_sibling_inline(tr, par, e1, e2, s)))
             if len(out) >= 4:
                 return out
     return out
+
+
+def _sibling_inline(tr, par, e1, e2, s):
+    """True iff e1 and e2 are (descendants of) children dispatched by two DIFFERENT handlers of the SAME event on a parallel_handlers bus,
+    and both of those handlers are suspended awaiting at seq s (each is processing its awaited child inline).  This is known finding F17."""
+    def top(e):
+        chain = [e]
+        while chain[-1] in tr.child_of:
+            chain.append(tr.child_of[chain[-1]])
+        return chain
+    c1, c2 = top(e1), top(e2)
+    for i, x in enumerate(c1[:-1]):
+        for j, y in enumerate(c2[:-1]):
+            if c1[i + 1] == c2[j + 1] and x != y:
+                w1, w2 = tr.disp_by.get(x), tr.disp_by.get(y)
+                if w1 and w2 and w1 != w2 and w1 in tr.who_info and w2 in tr.who_info:
+                    if tr.who_info[w1][0] in par and tr.who_info[w1][0] == tr.who_info[w2][0]:
+                        if tr.awaiting(w1, s) is not None and tr.awaiting(w2, s) is not None:
+                            return True
+    return False
